@@ -1,4 +1,4 @@
-//go:build verif
+//go:build verif && !verifpub
 
 package main
 
@@ -7,44 +7,10 @@ import (
 	"math/rand"
 
 	secp256k1 "gitlab.com/yawning/secp256k1-voi"
-	"gitlab.com/yawning/secp256k1-voi/internal/field"
 )
 
 func init() {
 	register("point", "C03: group law on arbitrary projective representatives, predicates, encodings, chains", drivePoint)
-}
-
-// ptRaw returns the raw projective coordinates X || Y || Z of p (96 bytes, hex).
-func ptRaw(p *secp256k1.Point) string {
-	x, y, z, _ := p.VerifCoords()
-	return hx(x.Bytes()) + hx(y.Bytes()) + hx(z.Bytes())
-}
-
-// rep returns the representative (X*z, Y*z, Z*z) of p.
-func rep(p *secp256k1.Point, z *big.Int) *secp256k1.Point {
-	x, y, zz, _ := p.VerifCoords()
-	fz := feFrom(z)
-	return secp256k1.VerifNewPointRaw(field.NewElement().Multiply(x, fz), field.NewElement().Multiply(y, fz), field.NewElement().Multiply(zz, fz))
-}
-
-// idRep returns the identity representative (0, y, 0).
-func idRep(y *big.Int) *secp256k1.Point {
-	return secp256k1.VerifNewPointRaw(field.NewElement(), feFrom(y), field.NewElement())
-}
-
-func clonePt(p *secp256k1.Point) *secp256k1.Point {
-	x, y, z, _ := p.VerifCoords()
-	return secp256k1.VerifNewPointRaw(x, y, z)
-}
-
-func mulG(k *big.Int) *secp256k1.Point {
-	return secp256k1.NewIdentityPoint().ScalarBaseMult(scFrom(new(big.Int).Mod(k, bigN)))
-}
-
-func encOrPanic(p *secp256k1.Point) string {
-	s := "panic"
-	catch(func() { s = hx(p.UncompressedBytes()) })
-	return s
 }
 
 type namedRep struct {
@@ -251,4 +217,5 @@ func drivePoint(c *ctx) {
 		}
 	}
 	c.sticky = false
+	pointLife(c, rand.New(rand.NewSource(c.seed+17)))
 }
